@@ -1,6 +1,9 @@
 package config
 
 import (
+	"maps"
+	"slices"
+
 	"go.minekube.com/gate/pkg/edition/java/proto/util"
 	"go.minekube.com/gate/pkg/gate/proto"
 	"io"
@@ -57,7 +60,9 @@ func (p *TagsUpdate) Encode(c *proto.PacketContext, wr io.Writer) error {
 		return err
 	}
 
-	for key, value := range p.Tags {
+	// sorted (both levels), so that the same packet always encodes to the same bytes
+	for _, key := range slices.Sorted(maps.Keys(p.Tags)) {
+		value := p.Tags[key]
 		err = util.WriteString(wr, key)
 		if err != nil {
 			return err
@@ -68,7 +73,8 @@ func (p *TagsUpdate) Encode(c *proto.PacketContext, wr io.Writer) error {
 			return err
 		}
 
-		for innerKey, innerValue := range value {
+		for _, innerKey := range slices.Sorted(maps.Keys(value)) {
+			innerValue := value[innerKey]
 			err = util.WriteString(wr, innerKey)
 			if err != nil {
 				return err
